@@ -68,55 +68,74 @@ def r1_indexer(ctx, prog):
         if lp is not None and fresh[0][0] not in lp[1]:
             r.viol("R1:%s#reused" % site, "the indexer passed to %s is created outside the per-locale loop: it is shared by several locales, so a string already seen in an earlier locale keeps the index it had there" % what, file=b.file, line=t["line"])
             continue
-        # consumed by get_strings after the user call, result stored in `.strings` of the locale, count = its len
-        g = [gb for gb in gets if (op_place(b.blocks[gb]["term"]["args"][0]) or {}).get("l") in backward_targets(b, x) and b.dominates(c, gb)]
-        if len(g) != 1:
-            r.viol("R1:%s#consumed" % site, "the indexer used by %s is not consumed by exactly one get_strings() afterwards" % what, file=b.file, line=t["line"])
-            continue
-        gdest = b.blocks[g[0]]["term"]["dest"]["l"]
-        stored = None
-        for i, j, s in b.assigns():
-            if s["rv"]["k"] == "Use" and (op_place(s["rv"]["ops"][0]) or {}).get("l") == gdest and s["place"]["p"]:
-                fld = [e for e in s["place"]["p"] if e.startswith(".")]
-                if fld and M.field_name(prog, LOCALE, int(fld[0][1:])) == "strings":
-                    stored = (i, s["place"]["l"])
-        if stored is None:
-            r.viol("R1:%s#stored" % site, "the strings of this indexer are not stored in the locale's `strings`", file=b.file, line=t["line"])
-            continue
-        # the locale written is the receiver of the user call
+        # consumed by get_strings after the user call, result stored in `.strings` of the locale, count = its len;
+        # either here or in a private helper the indexer and the locale are handed to
         recv = op_place(t["args"][0])
         rl, _ = backward_slice(b, recv["l"])
-        if stored[1] not in rl:
-            r.viol("R1:%s#other-locale" % site, "the table is stored in another locale than the one processed", file=b.file, line=t["line"])
-            continue
-        # count
-        cnt_ok = False
-        for i, j, s in b.assigns():
-            if s["place"]["l"] == stored[1] and s["place"]["p"] and s["rv"]["k"] == "Use":
-                fld = [e for e in s["place"]["p"] if e.startswith(".")]
-                if fld and M.field_name(prog, LOCALE, int(fld[0][1:])) == "top_locale_string_count":
-                    src = op_place(s["rv"]["ops"][0])
-                    for (di, dj, ds) in b.defs().get(src["l"], []) if src else []:
-                        if dj == "term" and (callee_name(ds) or "").endswith("Vec::<T, A>::len"):
-                            a = op_place(ds["args"][0])
-                            al, adefs = backward_slice(b, a["l"])
-                            # len of the same locale's `.strings`
-                            for (ri, rj, rs) in adefs:
-                                if rj != "term" and rs["rv"]["k"] == "Ref":
-                                    pl = rs["rv"]["place"]
-                                    f2 = [e for e in pl["p"] if e.startswith(".")]
-                                    if pl["l"] == stored[1] and f2 and M.field_name(prog, LOCALE, int(f2[0][1:])) == "strings" and b.dominates(stored[0], i):
-                                        cnt_ok = True
-        if cnt_ok:
+        why = _consumed(prog, b, x, set(rl), c)
+        if why is not None and why[0] == "#consumed":
+            moved = None
+            for hb, ht in b.calls():
+                hn = callee_name(ht) or ""
+                hbody = prog.bodies.get(hn)
+                if hbody is None or hbody.is_pub or not b.dominates(c, hb):
+                    continue
+                for ai, a in enumerate(ht["args"]):
+                    pa = op_place(a)
+                    if pa and not pa["p"] and pa["l"] in backward_targets(b, x):
+                        # which argument is the locale being processed?
+                        for li, la in enumerate(ht["args"]):
+                            pl = op_place(la)
+                            if pl and li != ai:
+                                ls2, _d = backward_slice(b, pl["l"])
+                                if set(ls2) & set(rl):
+                                    moved = (hbody, ai + 1, li + 1)
+            if moved is not None:
+                hbody, xi, li = moved
+                why = _consumed(prog, hbody, xi, {li}, 0)
+                if why is None:
+                    what = what + " -> " + hbody.name.split("::")[-1]
+        if why is None:
             r.inst(site, "fresh default() %s -> %s -> get_strings() -> locale.strings ; top_locale_string_count = locale.strings.len()" % ("in this iteration" if lp else "", what))
         else:
-            r.viol("R1:%s#count" % site, "top_locale_string_count is not the length of the table just stored", file=b.file, line=t["line"])
-    fn = ctx.ast.fn(PL, "propagate_string_count", impl_self="BuildersKeysInner")
-    t = flatp(show(fn.body)) if fn else ""
-    if has(t, "forlocale,top_localeinlocales.iter_mut.ziptop_locales{locale.top_locale_string_count=top_locale.top_locale_string_count}keys.propagate_string_counttop_locales"):
-        r.inst("propagate_string_count", "subkey locale i gets the count of top locale i, recursively")
+            r.viol("R1:%s%s" % (site, why[0]), why[1] % {"what": what}, file=b.file, line=t["line"])
+    pb = prog.body("locale::BuildersKeysInner::propagate_string_count")
+    if pb is None:
+        r.missing("BuildersKeysInner::propagate_string_count")
     else:
-        r.viol("R1:propagate_string_count", "subkey locales no longer receive their top locale's count position-wise", file=PL)
+        ok = False
+        why = "no store to top_locale_string_count"
+        fam = prog.family(pb)
+        reads = 0
+        for bb in fam:
+            for i2, j2, s2 in bb.assigns():
+                for pl in [s2["rv"].get("place")] + [op_place(o) for o in s2["rv"].get("ops", [])]:
+                    if pl and any(e.startswith(".") and M.field_name(prog, LOCALE, int(e[1:])) == "top_locale_string_count" for e in pl["p"][-1:]) and "Locale" in bb.local_ty(pl["l"]):
+                        reads += 1
+        for i2, j2, s2 in pb.assigns():
+            fld = [e for e in s2["place"]["p"] if e.startswith(".")]
+            if not (s2["place"]["p"] and fld and M.field_name(prog, LOCALE, int(fld[-1][1:])) == "top_locale_string_count"):
+                continue
+            src = op_place(s2["rv"]["ops"][0]) if s2["rv"].get("ops") else None
+            ls, defs = backward_slice(pb, src["l"]) if src else (set(), [])
+            dl, ddefs = backward_slice(pb, s2["place"]["l"])
+            zips = [d for d in defs + ddefs if d[1] == "term" and (callee_name(d[2]) or "").endswith("Iterator::zip")]
+            if not zips:
+                why = "the count stored in a sub-key locale is not paired position-wise (zip) with the top-level locales"
+                continue
+            z = zips[0][2]
+            a0, _x = backward_slice(pb, op_place(z["args"][0])["l"])
+            a1, _y = backward_slice(pb, op_place(z["args"][1])["l"])
+            if 2 in a1 and 2 not in a0 and reads >= 1 and not M.call_blocks(pb, r"Iterator::(skip|take|rev|filter|step_by|skip_while|take_while)$"):
+                ok = True
+            else:
+                why = "the zip does not pair the sub-key locales with the `top_locales` argument in order"
+        rec = [c for c in M.call_blocks(pb, r"BuildersKeysInner::propagate_string_count$")]
+        rec_ok = any(2 in backward_slice(pb, op_place(pb.blocks[c]["term"]["args"][1])["l"])[0] for c in rec)
+        if ok and rec_ok:
+            r.inst("propagate_string_count", "sub-key locale i gets the count of top locale i (zip), recursively with the same top locales")
+        else:
+            r.viol("R1:propagate_string_count", "subkey locales no longer receive their top locale's count position-wise (%s; recursion with top_locales=%s)" % (why, rec_ok), file=PL)
     cb = prog.body("parse_locales::check_locales_inner")
     pc = M.call_blocks(cb, r"BuildersKeysInner::propagate_string_count$")
     oks = M.ok_return_blocks(cb)
@@ -125,6 +144,53 @@ def r1_indexer(ctx, prog):
     else:
         r.viol("R1:check_locales_inner#propagate", "propagate_string_count is not called on every successful path", file=cb.file, line=cb.line)
     return r
+
+
+def _consumed(prog, b, x, locale_locals, after):
+    """None when, in body b, the indexer in local x is consumed by exactly one get_strings() (after block `after`) whose
+    result becomes `.strings` of a locale in locale_locals, and that locale's top_locale_string_count is the length of
+    that table; else (key suffix, message)"""
+    gets = M.call_blocks(b, r"parse_locales::StringIndexer::get_strings$")
+    tg = backward_targets(b, x)
+    g = [gb for gb in gets if (op_place(b.blocks[gb]["term"]["args"][0]) or {}).get("l") in tg and (after == 0 or b.dominates(after, gb))]
+    if len(g) != 1:
+        return ("#consumed", "the indexer used by %(what)s is not consumed by exactly one get_strings() afterwards")
+    gdest = b.blocks[g[0]]["term"]["dest"]["l"]
+    gset = backward_targets(b, gdest)
+    stored = None
+    for i, j, s in b.assigns():
+        if s["rv"]["k"] == "Use" and (op_place(s["rv"]["ops"][0]) or {}).get("l") in gset and s["place"]["p"]:
+            fld = [e for e in s["place"]["p"] if e.startswith(".")]
+            if fld and M.field_name(prog, LOCALE, int(fld[0][1:])) == "strings":
+                stored = (i, s["place"]["l"])
+    if stored is None:
+        return ("#stored", "the strings of this indexer are not stored in the locale's `strings`")
+    sl, _ = backward_slice(b, stored[1])
+    if not ({stored[1]} | set(sl)) & set(locale_locals):
+        return ("#other-locale", "the table is stored in another locale than the one processed")
+    for i, j, s in b.assigns():
+        if s["place"]["p"] and s["rv"]["k"] == "Use":
+            fld = [e for e in s["place"]["p"] if e.startswith(".")]
+            if not (fld and M.field_name(prog, LOCALE, int(fld[0][1:])) == "top_locale_string_count"):
+                continue
+            tl, _ = backward_slice(b, s["place"]["l"])
+            if not ({s["place"]["l"]} | set(tl)) & ({stored[1]} | set(sl) | set(locale_locals)):
+                continue
+            src = op_place(s["rv"]["ops"][0])
+            for (di, dj, ds) in b.defs().get(src["l"], []) if src else []:
+                if dj == "term" and (callee_name(ds) or "").endswith("Vec::<T, A>::len"):
+                    a = op_place(ds["args"][0])
+                    al, adefs = backward_slice(b, a["l"])
+                    # len of the table itself, or of the locale's `.strings` once stored
+                    if set(al) & gset:
+                        return None
+                    for (ri, rj, rs) in adefs:
+                        if rj != "term" and rs["rv"]["k"] == "Ref":
+                            pl = rs["rv"]["place"]
+                            f2 = [e for e in pl["p"] if e.startswith(".")]
+                            if f2 and M.field_name(prog, LOCALE, int(f2[0][1:])) == "strings" and b.dominates(stored[0], i):
+                                return None
+    return ("#count", "top_locale_string_count is not the length of the table just stored")
 
 
 def backward_targets(b, x):
@@ -150,34 +216,44 @@ def r2_single_writer(ctx, prog):
                 r.inst("%s#Literal::String" % name, "constructed with index usize::MAX (line %d)" % s["line"])
     if n < 6:
         r.viol("R2:constructors", "only %d construction sites of Literal::String found (7 on the pinned tree)" % n, file=PV)
-    fn = ctx.ast.fn(PV, "index_strings", impl_self="Literal")
-    t = flatp(show(fn.body)) if fn else ""
-    if same(t, "{ifletLiteral::Strings,index=self{*index=strings.push_strs}}"):
-        r.inst("Literal::index_strings", "*index = strings.push_str(s)")
-    else:
-        r.viol("R2:Literal::index_strings", "is `%s`" % t, file=PV)
-    # no other assignment through the index binding
-    writers = []
-    for f in ctx.ast.fns:
-        if f.body and f.file.startswith("leptos_i18n_parser") and not f.is_test():
-            if re.search(r"\*index=", flat(show(f.body))):
-                writers.append(f.qual)
-    if writers != ["Literal::index_strings"]:
-        r.viol("R2:writers", "`*index = ..` occurs in %s" % writers, file=PV)
-    else:
+    from rules.common import mpaths
+    import mustlib as M
+    want = {
+        "Literal::index_strings": (r"parsed_value::Literal::index_strings$", [
+            "[p1 is String] Deref::deref((p1 as String).0); StringIndexer::push_str(p2, Deref::deref((p1 as String).0)); (p1 as String).1 := StringIndexer::push_str(p2, Deref::deref((p1 as String).0)) => '()'",
+            "[p1 is not String] => '()'"], "a string literal's index := strings.push_str(its own text); other literals untouched", PV),
+        "StringIndexer::push_str": (r"parse_locales::StringIndexer::push_str$", [
+            "[HashMap::get(p1.current, p2) is Some] HashMap::get(p1.current, p2) => (HashMap::get(p1.current, p2) as Some).0",
+            "[HashMap::get(p1.current, p2) is None] HashMap::get(p1.current, p2); Vec::len(p1.acc); From::from(p2); Clone::clone(From::from(p2)); Vec::push(p1.acc, Clone::clone(From::from(p2))); HashMap::insert(p1.current, From::from(p2), Vec::len(p1.acc)) => Vec::len(p1.acc)"],
+            "known string -> its index; new string -> index = acc.len() before the push, remembered under the same string", PM),
+        "StringIndexer::get_strings": (r"parse_locales::StringIndexer::get_strings$", ["[always] => p1.acc"], "the accumulated vector, by value (the indexer is consumed)", PM),
+    }
+    for label, (rx, w, what, file) in want.items():
+        got = mpaths(prog, rx)
+        if got is None:
+            r.missing(label)
+        elif got == sorted(w):
+            r.inst(label, what)
+        else:
+            r.viol("R2:" + label, "behaves as %s; confirmed behaviour: %s" % (got, what), file=file)
+    # who writes the index field of Literal::String (MIR stores; an extracted single-caller helper counts as its caller)
+    writers = set()
+    for name, b in prog.bodies.items():
+        if b.crate != "leptos_i18n_parser" or "Clone>::clone" in name:
+            continue
+        refs = set()
+        for i2, j2, s2 in b.assigns():
+            rv = s2["rv"]
+            pl = rv.get("place")
+            if rv["k"] == "Ref" and rv.get("mut") and pl and "@String" in pl["p"] and pl["p"][-1] == ".1" and "parsed_value::Literal" in b.local_ty(pl["l"]):
+                refs.add(s2["place"]["l"])
+            pl2 = s2["place"]
+            if pl2["p"] and (("@String" in pl2["p"] and pl2["p"][-1] == ".1" and "parsed_value::Literal" in b.local_ty(pl2["l"])) or (pl2["l"] in refs and pl2["p"] == ["*"])):
+                writers.add(M.owner_of(prog, name).split("parse_locales::")[-1])
+    if writers == {"parsed_value::Literal::index_strings"}:
         r.inst("writers of the index", "Literal::index_strings only")
-    fn = ctx.ast.fn(PM, "push_str", impl_self="StringIndexer")
-    t = flatp(show(fn.body)) if fn else ""
-    if same(t, "{ifletSomeindex=self.current.gets{*index}else{leti=self.acc.len;lets:Rc<str>=Rc::froms;self.acc.pushs.clone;self.current.inserts,i;i}}"):
-        r.inst("StringIndexer::push_str", "known string -> its index; new string -> index = acc.len() before the push, remembered under the same string")
     else:
-        r.viol("R2:StringIndexer::push_str", "push_str changed: %s" % t[:160], file=PM)
-    fn = ctx.ast.fn(PM, "get_strings", impl_self="StringIndexer")
-    t = flatp(show(fn.body)) if fn else ""
-    if same(t, "{self.acc}"):
-        r.inst("StringIndexer::get_strings", "the accumulated vector, by value (the indexer is consumed)")
-    else:
-        r.viol("R2:StringIndexer::get_strings", "is `%s`" % t, file=PM)
+        r.viol("R2:writers", "the index of a string literal is written in %s" % sorted(writers), file=PV)
     # the indexer cannot be drained and reused: no method other than push_str takes &mut self
     muts = [f.name for f in ctx.ast.fns if f.file.endswith(PM) and f.impl_self == "StringIndexer" and f.node["sig"]["inputs"] and "&mut" in flat(f.node["sig"]["inputs"][0]["ty"])]
     if muts != ["push_str"]:
